@@ -24,6 +24,8 @@ func init() {
 	core.Register(&core.Check{
 		ID:    "C06",
 		Level: "model_checking",
+		// generous internal deadline: the run takes 1-2 minutes on an idle machine and several times that next to other jobs
+		QuickBudget: 900,
 		Rule: "history tree over a live pool (int, float, str, two arrays, nested array, object, bear child, map with scalar and non-scalar keys, map with several non-scalar keys, range, function, Either value, error wrapper): " +
 			"depth 1 = every property reachable along the prototype chain of every pool value (discovered at run time) x {no argument, each of 10 arguments, 4 argument pairs, trailing function}, every infix operator over all ordered pool pairs, slices, unpacking, chains with chain argument; " +
 			"depth 2 (thorough 3) = all sequences over the container-producing core (~45 templates) whose operands range over the pool and over earlier results; incl. 8 operations whose callee keeps the argument array / [acc, elem] pair it was given (result compared with what each held when created; a value that contains itself is a violation); after every operation the deep fingerprint (Go pointer identity of elements/pairs/keys/bounds, payload, prototype) and Repr of every earlier value and the key lists of the built-in prototypes must be unchanged; " +
